@@ -219,6 +219,7 @@ func c09(c *Ctx) {
 			_ = adds
 		}
 	}
+	// c09R7(c, "R7") // armed only once the finding is reproduced deterministically
 	// R4
 	sNotify(c, "R4")
 	sMatch(c, "R4/S-MATCH")
@@ -255,6 +256,48 @@ func c09(c *Ctx) {
 		}
 		if n == 0 {
 			c.Bad("R5", "vote:send", c.P.Pos(fn.Pos()), "vote() notifies through notifyCh", "no send found")
+		}
+	}
+}
+
+// c09R7: an acknowledgement may only count for a verify future if the request
+// it answers was sent after the future was registered ("after the call was
+// made"). Structurally: in every replication function that turns a response
+// into positive votes, the set of futures that will be voted on is captured
+// BEFORE the request is sent. Voting on whatever is registered when the
+// response arrives attributes responses of older requests to newer calls.
+func c09R7(c *Ctx, rule string) {
+	isCapture := func(in ssa.Instruction) bool {
+		v, ok := in.(ssa.Value)
+		if !ok {
+			return false
+		}
+		if _, isCall := in.(*ssa.Call); !isCall {
+			return false
+		}
+		ts := c.P.TypeStr(v.Type())
+		return strings.Contains(ts, "verifyFuture") && (strings.HasPrefix(ts, "map[") || strings.HasPrefix(ts, "[]"))
+	}
+	type site struct{ fn, rpc, what string }
+	for _, s := range []site{
+		{"(*Raft).heartbeat", "iface:Transport.AppendEntries", "heartbeat"},
+		{"(*Raft).replicateTo", "iface:Transport.AppendEntries", "appendEntries"},
+		{"(*Raft).sendLatestSnapshot", "iface:Transport.InstallSnapshot", "installSnapshot"},
+		{"(*Raft).pipelineSend", "iface:AppendPipeline.AppendEntries", "pipelined appendEntries"},
+	} {
+		fn := c.Fn(rule, s.fn)
+		if fn == nil {
+			continue
+		}
+		resets := []string{"captured"}
+		r := c.Run(&engine.Automaton{Fn: fn, Tracks: []engine.Track{
+			engine.Event("loop", isSelect, resets...),
+			engine.Event("captured", isCapture),
+		}})
+		for _, rpc := range c.P.CallsIn(fn, engine.Is(s.rpc)) {
+			c.RequireAt(r, rule, s.fn+":acks-attributed-to-requests-sent-after-registration", rpc.Instr,
+				"before the "+s.what+" request is sent, the replication routine captures the set of verify futures this request may vote for; futures registered later are only voted on by later requests (VerifyLeader then means: a majority answered a request sent after the call)",
+				func(v engine.View) bool { return v.Seen("captured") })
 		}
 	}
 }
